@@ -705,7 +705,8 @@ def walk(children, level=0, path=None, usename=True):
 
 
 def literal_rdf_representation(literal):
-    value = str(literal.value) if literal.value else literal
+    # (an empty string is a value too)
+    value = str(literal.value) if literal.value is not None else literal
     if literal.langtag:
         #  a language tag can only go with prov:InternationalizedString
         return RDFLiteral(value, lang=str(literal.langtag))
